@@ -23,6 +23,8 @@ import (
 	"verif/harness/gen"
 )
 
+var coldOnce sync.Once
+
 type schedCase struct {
 	Kind  string         `json:"kind"` // cli-replica | analyzer-parallel | e2e
 	Progs []gen.ProgCase `json:"programs"`
@@ -214,16 +216,7 @@ func checkAnalyzerParallel(t core.TB, rec *core.Recorder, env *gen.Env, sc *sche
 		sort.Strings(out)
 		return out, err
 	}
-	want := make([][]string, len(progs))
-	for i, p := range progs {
-		w, err := run(p)
-		if err != nil {
-			rec.Count("analyzer-sequential-error")
-			return
-		}
-		want[i] = w
-	}
-	for round := 0; round < 2; round++ {
+	parallel := func() ([][]string, []error) {
 		got := make([][]string, len(progs))
 		errs := make([]error, len(progs))
 		var wg sync.WaitGroup
@@ -238,6 +231,25 @@ func checkAnalyzerParallel(t core.TB, rec *core.Recorder, env *gen.Env, sc *sche
 		}
 		close(start)
 		wg.Wait()
+		return got, errs
+	}
+	// the very first use of the analyzer in this process is parallel: the cached configuration
+	// is initialised while several passes are entering (a cold cache)
+	coldOnce.Do(func() {
+		parallel()
+		rec.Count("analyzer-cold-start-parallel")
+	})
+	want := make([][]string, len(progs))
+	for i, p := range progs {
+		w, err := run(p)
+		if err != nil {
+			rec.Count("analyzer-sequential-error")
+			return
+		}
+		want[i] = w
+	}
+	for round := 0; round < 2; round++ {
+		got, errs := parallel()
 		for i := range progs {
 			if errs[i] != nil {
 				rec.Violation(t, "C04|analyzer|parallel-pass-failed", fmt.Sprintf("pass %d failed when run in parallel: %v", i, errs[i]), sc)
